@@ -30,6 +30,12 @@ CHECKS = {
    design="4/C10"),
 }
 
+ 
+CHECKS["C14"] = dict(
+   technique="by-construction source map from a tree-first renderer compared with reported spans (proptest-driven); slice re-parse round-trip; differential twin types with/without Spanned",
+   text="For generated documents (multi-byte characters, BOM, CRLF, decoration around every token) the byte range of every key, value and header section is known by construction and must equal Key/Value/Item::span() on ImDocument and the ranges a span-probing serde mirror type receives; slices re-parse to the same value/key/table; containment, bounds and char boundaries hold; spans vanish after into_mut(); four twin types with/without Spanned succeed together. Sampled exploration (40k quick / 1M thorough documents).",
+   note="expected ranges come from the harness' renderer; table spans without a header of their own are only required to be in bounds",
+   design="4/C14")
 NOT_YET = {}
 
 def main():
